@@ -66,6 +66,10 @@ func NewSortReg() *SortReg {
 		"(assert (forall ((s Str)) (! (=> (= (len_Str s) 0) (= s emptystr)) :pattern ((len_Str s)))))",
 		"(assert (forall ((s Str)) (! (= (cat_Str emptystr s) s) :pattern ((cat_Str emptystr s)))))",
 		"(assert (forall ((s Str)) (! (= (cat_Str s emptystr) s) :pattern ((cat_Str s emptystr)))))")
+	r.decls = append(r.decls,
+		// derived facts about strings, stated for trigger reasons: concatenation is cancellative
+		"(assert (forall ((a Str) (b Str) (c Str)) (! (=> (= (cat_Str a b) (cat_Str a c)) (= b c)) :pattern ((cat_Str a b) (cat_Str a c)))))",
+		"(assert (forall ((a Str) (b Str) (c Str)) (! (=> (= (cat_Str b a) (cat_Str c a)) (= b c)) :pattern ((cat_Str b a) (cat_Str c a)))))")
 	// []byte: content (a Str) plus a nil flag; strings are pure content
 	r.seqs["Bytes"] = &SeqInfo{Sort: "Bytes", Elem: "Int", Len: "len_Bytes", At: "at_Bytes", IsNil: "isnil_Bytes", Cat: "cat_Bytes", Sub: "sub_Bytes",
 		Upd: "upd_Bytes", Nil: "nil_Bytes", ElemGo: types.Typ[types.Byte]}
